@@ -428,3 +428,53 @@ def check_passthrough(ctx, m, cfg, rule="R-SIB", pid=None):
             else:
                 ctx.ok(rule, inst, "the arrays and their element count are forwarded unchanged")
     return n
+
+
+# ---------------------------------------------------------------------------------------------------------------
+# R-SIB boundary slice: the hexagon and the pentagon boundary builders are siblings (same signature: fijk, res, start, length, out).
+# A caller that chooses between them by isPentagon must ask both for the same slice: the same (start, length), or the whole ring
+# (start 0, length NUM_HEX_VERTS = 6 resp. NUM_PENT_VERTS = 5).  A whole boundary is NOT indexed by topological vertex number (at
+# Class III resolutions distortion vertices are inserted), so "whole ring here, slice there" delivers different vertices for the
+# same vertex number (vertexToLatLng, directedEdgeToBoundary; C11, C10, C08).
+BOUNDARY_SIBS = ("_faceIjkToCellBoundary", "_faceIjkPentToCellBoundary")
+WHOLE = {"_faceIjkToCellBoundary": 6, "_faceIjkPentToCellBoundary": 5}
+
+
+def check_boundary_slice(ctx, m, cfg, rule="R-SIB"):
+    n = 0
+    for f in m.defined():
+        if f.name in BOUNDARY_SIBS:
+            continue
+        calls = {s: [c for c in f.all_insts() if c.op == "call" and c.callee == s] for s in BOUNDARY_SIBS}
+        if not calls[BOUNDARY_SIBS[0]] and not calls[BOUNDARY_SIBS[1]]:
+            continue
+        n += 1
+        inst = {"function": f.name, "config": cfg}
+        if len(calls[BOUNDARY_SIBS[0]]) != 1 or len(calls[BOUNDARY_SIBS[1]]) != 1:
+            ctx.broken(rule, "boundary slice: %s does not call each of the two boundary builders exactly once" % f.name)
+            continue
+        h, p = calls[BOUNDARY_SIBS[0]][0], calls[BOUNDARY_SIBS[1]][0]
+
+        def slice_of(c):
+            return _strip(f, c.ops[2]), _strip(f, c.ops[3])
+        hs, ps = slice_of(h), slice_of(p)
+
+        def whole(c, sl):
+            return sl[0][0] == "c" and sl[0][1] == 0 and sl[1][0] == "c" and sl[1][1] == WHOLE[c.callee]
+        same = _same_value(f, hs[0], ps[0]) and _same_value(f, hs[1], ps[1])
+        if same or (whole(h, hs) and whole(p, ps)):
+            ctx.ok(rule, inst, "both boundary builders are asked for the same slice (%s)" % ("the whole ring" if whole(h, hs) and not same else "start %s, length %s" % (_name_of(f, hs[0]), _name_of(f, hs[1]))))
+        elif whole(h, hs) != whole(p, ps):
+            w, o = (h, p) if whole(h, hs) else (p, h)
+            ctx.violation(rule, "boundary-slice:%s" % f.name,
+                          "%s asks %s for the whole ring but %s for the slice (start %s, length %s): entries of a whole boundary are not numbered by topological vertex "
+                          "(distortion vertices at Class III resolutions), so the two kinds of cell answer differently for the same vertex number"
+                          % (f.name, w.callee, o.callee, _name_of(f, slice_of(o)[0]), _name_of(f, slice_of(o)[1])), w.where(), inst)
+        elif all(x[0] == "c" for x in hs + ps) or (_same_value(f, hs[0], ps[0]) and hs[1][0] == "c" and ps[1][0] == "c"):
+            ctx.violation(rule, "boundary-slice:%s" % f.name, "%s asks the hexagon builder for (start %s, length %s) but the pentagon builder for (start %s, length %s)"
+                          % (f.name, _name_of(f, hs[0]), _name_of(f, hs[1]), _name_of(f, ps[0]), _name_of(f, ps[1])), p.where(), inst)
+        else:
+            ctx.broken(rule, "boundary slice: %s passes slices to the two boundary builders that cannot be compared (%s,%s vs %s,%s)"
+                       % (f.name, _name_of(f, hs[0]), _name_of(f, hs[1]), _name_of(f, ps[0]), _name_of(f, ps[1])))
+    ctx.floor(rule, "callers choosing between the hexagon and the pentagon boundary builder", n, 3)
+    return n
